@@ -176,7 +176,9 @@ def apply_png_predictor(
     # number of bytes per complete pixel, rounded up to one
     bpp = max(1, colors * bitspercomponent // 8)
     buf = []
-    line_above = list(b"\x00" * nbytes)
+    # (a scanline cannot hold more than the data: an absurd /Columns must not
+    # allocate an absurd row)
+    line_above = list(b"\x00" * min(nbytes, len(data)))
     for scanline_i in range(0, len(data), nbytes + 1):
         filter_type = data[scanline_i]
         line_encoded = data[scanline_i + 1 : scanline_i + 1 + nbytes]
